@@ -358,3 +358,267 @@ Section Divider.
     rewrite E at 1. rewrite rrun_Aw by apply zeros_length. reflexivity.
   Qed.
 End Divider.
+
+(** * [pmod]: remainder facts *)
+
+Ltac s1 := repeat match goal with
+  | |- context [(S ?n - 1)%nat] => replace (S n - 1)%nat with n by lia
+  | H : context [(S ?n - 1)%nat] |- _ => replace (S n - 1)%nat with n in H by lia
+  end.
+
+Lemma run_nil glow m : fold_left (pstep glow) m [] = [].
+Proof. apply length_zero_iff_nil. now rewrite run_length. Qed.
+
+Theorem pmod_length m g : length (pmod m g) = (length g - 1)%nat.
+Proof.
+  destruct g as [|c glow]; cbn [pmod length]; [reflexivity|].
+  rewrite run_length, zeros_length. lia.
+Qed.
+
+(** 3a. [pmod] is linear. *)
+Theorem pmod_linear a b g : length a = length b ->
+  pmod (xorl a b) g = xorl (pmod a g) (pmod b g).
+Proof.
+  intros H. destruct g as [|c glow]; cbn [pmod]; [reflexivity|].
+  rewrite <- (xorl_zeros_r (zeros (length glow)) (length glow)) at 1.
+  apply run_linear; rewrite ?zeros_length; auto.
+Qed.
+
+(** Together with linearity the next three facts determine [pmod m g] uniquely
+    as "the" remainder of [m] modulo the monic [g]: leading zeros are
+    irrelevant; a dividend of degree below [w] is its own remainder; every shift
+    g * x^k of the generator has remainder zero (so by linearity a leading 1 of
+    a long dividend can be cancelled against g * x^k without changing the
+    remainder, which is schoolbook division). *)
+Theorem pmod_leading_zeros k m g : pmod (zeros k ++ m) g = pmod m g.
+Proof.
+  destruct g as [|c glow]; cbn [pmod]; [reflexivity|].
+  now rewrite fold_left_app, run_zeros.
+Qed.
+
+Theorem pmod_small m g : (length m <= length g - 1)%nat ->
+  pmod m g = zeros (length g - 1 - length m) ++ m.
+Proof.
+  destruct g as [|c glow]; cbn [pmod length]; intros H.
+  - destruct m; [reflexivity|cbn in H; lia].
+  - s1.
+    rewrite <- (app_nil_r (zeros (length glow))) at 1.
+    now rewrite run_shift_in by assumption.
+Qed.
+
+Theorem pmod_generator_shift glow k :
+  pmod ((true :: glow) ++ zeros k) (true :: glow) = zeros (length glow).
+Proof.
+  cbn [pmod]. rewrite fold_left_app.
+  assert (E : fold_left (pstep glow) (true :: glow) (zeros (length glow)) = zeros (length glow)).
+  { destruct (list_eq_dec bool_dec glow []) as [->|Hne]; [reflexivity|].
+    destruct (exists_last Hne) as [g' [c Hg]].
+    assert (Hl : length (true :: g') = length glow).
+    { rewrite Hg, app_length. cbn. lia. }
+    replace (true :: glow) with ((true :: g') ++ [c]) by (now rewrite Hg).
+    rewrite fold_left_app. rewrite run_load by assumption.
+    cbn. rewrite <- Hg. apply xorl_nilpotent. }
+  rewrite E. apply run_zeros.
+Qed.
+
+(** * 3b. Burst theorem for the polynomial specification *)
+
+Lemma monic_split g : hd false g = true -> exists glow, g = true :: glow.
+Proof. destruct g as [|[] glow]; cbn; try discriminate. eauto. Qed.
+
+(** Let [g] be monic of degree [w] with non-zero constant term.  If [e] is zero
+    except for a non-zero pattern confined to at most [w] consecutive
+    coefficients, then [e * x^w] is not divisible by [g]. *)
+Theorem pmod_burst (g : poly) (e : list bool) :
+  hd false g = true -> last g false = true ->
+  is_burst (length g - 1) e ->
+  pmod (e ++ zeros (length g - 1)) g <> zeros (length g - 1).
+Proof.
+  intros Hm Hl (i & b & j & -> & Hb & Hin).
+  destruct (monic_split g Hm) as [glow ->]. cbn [length pmod] in *.
+  s1.
+  destruct glow as [|c glow'].
+  - destruct b; [contradiction|cbn in Hb; lia].
+  - apply run_burst_nonzero; auto.
+Qed.
+
+Lemma crc_spec_bits_length g msg : length (crc_spec_bits g msg) = (length g - 1)%nat.
+Proof. unfold crc_spec_bits. now rewrite xorl_length, pmod_length. Qed.
+
+(** Equal-length messages that differ by such a burst have different CRCs. *)
+Theorem crc_spec_bits_burst (g : poly) (a b : list bool) :
+  hd false g = true -> last g false = true ->
+  length a = length b -> is_burst (length g - 1) (xorl a b) ->
+  crc_spec_bits g a <> crc_spec_bits g b.
+Proof.
+  intros Hm Hl Hab Hb E. apply (pmod_burst g (xorl a b) Hm Hl Hb).
+  unfold crc_spec_bits in E. set (w := (length g - 1)%nat) in *.
+  apply xorl_cancel_r in E; rewrite ?pmod_length, ?ones_length; try reflexivity.
+  assert (Hx : forall m, length m = length a ->
+             xor_prefix (ones w) (m ++ zeros w) = xorl (ones w ++ zeros (length a)) (m ++ zeros w)).
+  { intros m Hm'. apply xor_prefix_xorl. rewrite !app_length, zeros_length, ones_length. lia. }
+  rewrite (Hx a eq_refl), (Hx b (eq_sym Hab)) in E.
+  set (O := ones w ++ zeros (length a)) in *.
+  assert (HO : length O = (w + length a)%nat)
+    by (unfold O; now rewrite app_length, ones_length, zeros_length).
+  replace (xorl a b ++ zeros w) with (xorl (xorl O (a ++ zeros w)) (xorl O (b ++ zeros w))).
+  - rewrite pmod_linear by (now rewrite !xorl_length).
+    rewrite E, xorl_nilpotent, pmod_length. reflexivity.
+  - rewrite xorl4 by (rewrite ?app_length, ?zeros_length; lia).
+    rewrite xorl_nilpotent.
+    replace (length O) with (length (xorl (a ++ zeros w) (b ++ zeros w)))
+      by (rewrite xorl_length, app_length, zeros_length; lia).
+    rewrite xorl_zeros_l, xorl_app by assumption.
+    now rewrite xorl_zeros_r.
+Qed.
+
+(** * [of_bits] *)
+
+Lemma of_bits_xorl a : forall b, length a = length b ->
+  of_bits (xorl a b) = N.lxor (of_bits a) (of_bits b).
+Proof.
+  induction a as [|x a IH]; intros [|y b] H; cbn [length] in H; try discriminate; [reflexivity|].
+  cbn [xorl of_bits]. rewrite IH by lia.
+  destruct x, y; cbn [xorb]; destruct (of_bits a), (of_bits b); reflexivity.
+Qed.
+
+Lemma of_bits_snoc_false l : of_bits (l ++ [false]) = of_bits l.
+Proof. induction l as [|x l IH]; cbn [app of_bits]; [reflexivity|]. now rewrite IH. Qed.
+
+Lemma of_bits_inj a : forall b, length a = length b -> of_bits a = of_bits b -> a = b.
+Proof.
+  induction a as [|x a IH]; intros [|y b] H E; cbn [length] in H; try discriminate; [reflexivity|].
+  destruct x, y; cbn [of_bits] in E.
+  - apply N.succ_double_inj in E. f_equal. apply IH; [lia|assumption].
+  - Show. rewrite N.succ_double_spec, N.double_spec in E. lia.
+  -  rewrite N.succ_double_spec in E. Show. rewrite N.double_spec in E. lia.
+  - apply N.double_inj in E. f_equal. apply IH; [lia|assumption].
+Qed.
+
+Lemma of_bits_bound l : (of_bits l < 2 ^ N.of_nat (length l))%N.
+Proof.
+  induction l as [|x l IH]; cbn [of_bits length]; [reflexivity|].
+  rewrite Nnat.Nat2N.inj_succ, N.pow_succ_r'.
+  destruct x; rewrite ?N.succ_double_spec, ?N.double_spec; lia.
+Qed.
+
+(** Burst theorem for the N-valued specification on octet strings. *)
+Theorem crc_spec_burst (g : poly) (m m' : bytes) :
+  hd false g = true -> last g false = true ->
+  burst_apart (length g - 1) m m' ->
+  crc_spec g m <> crc_spec g m'.
+Proof.
+  intros Hm Hl [Hlen Hb] E. unfold crc_spec in E.
+  apply of_bits_inj in E; [|now rewrite !crc_spec_bits_length].
+  revert E. apply crc_spec_bits_burst; auto.
+  unfold bits_of_bytes. rewrite !flat_map_concat_map, !length_concat, !map_map.
+  f_equal. clear Hb. revert m' Hlen.
+  induction m as [|x m IH]; intros [|y m'] H; cbn in *; try discriminate; [reflexivity|].
+  f_equal. apply IH. lia.
+Qed.
+
+(** * 3c. The executable register model computes the specification *)
+
+Lemma odd_succ_double x : N.odd (N.succ_double x) = true.
+Proof. destruct x; reflexivity. Qed.
+Lemma odd_double x : N.odd (N.double x) = false.
+Proof. destruct x; reflexivity. Qed.
+
+(** One step of the [N] register = one step of the coefficient-list register. *)
+Lemma crc_bit_rstep glow r b : length r = length glow ->
+  crc_bit (of_bits glow) (of_bits r) b = of_bits (rstep glow r b).
+Proof.
+  intros H. destruct r as [|top rest].
+  - destruct glow; [|discriminate]. destruct b; reflexivity.
+  - unfold crc_bit. cbn [of_bits rstep].
+    assert (Ho : N.odd (if top then N.succ_double (of_bits rest) else N.double (of_bits rest)) = top)
+      by (destruct top; [apply odd_succ_double|apply odd_double]).
+    assert (Hs : N.shiftr (if top then N.succ_double (of_bits rest) else N.double (of_bits rest)) 1
+                 = of_bits rest)
+      by (rewrite <- N.div2_spec; destruct top; [apply N.div2_succ_double|apply N.div2_double]).
+    rewrite Ho, Hs.
+    destruct (xorb top b).
+    + rewrite of_bits_xorl, of_bits_snoc_false; [reflexivity|].
+      rewrite app_length. cbn [length] in *. lia.
+    + now rewrite of_bits_snoc_false.
+Qed.
+
+Lemma crc_bits_rrun glow m : forall r, length r = length glow ->
+  fold_left (crc_bit (of_bits glow)) m (of_bits r) = of_bits (fold_left (rstep glow) m r).
+Proof.
+  induction m as [|b m IH]; intros r H; cbn [fold_left]; [reflexivity|].
+  rewrite crc_bit_rstep by assumption. apply IH. now rewrite rstep_length.
+Qed.
+
+Lemma crc_octets_bits poly bs : forall crc,
+  fold_left (crc_octet poly) bs crc = fold_left (crc_bit poly) (bits_of_bytes bs) crc.
+Proof.
+  induction bs as [|x bs IH]; intros crc; [reflexivity|].
+  unfold bits_of_bytes. cbn [fold_left flat_map]. rewrite fold_left_app. apply IH.
+Qed.
+
+(** Generic tie: the bit-serial reflected register over [N] with reflected
+    polynomial [of_bits glow], preset and final xor all ones, equals the
+    polynomial specification for the generator x^w + glow. No condition on
+    the octets: both sides read only the low eight bits of each. *)
+Theorem crc_run_spec (glow : poly) (bs : bytes) :
+  crc_run (of_bits glow) (of_bits (ones (length glow))) (of_bits (ones (length glow))) bs
+  = crc_spec (true :: glow) bs.
+Proof.
+  unfold crc_run, crc_spec, crc_spec_bits. cbn [length pmod]. s1.
+  rewrite crc_octets_bits, crc_bits_rrun by apply ones_length.
+  rewrite rrun_pmod by apply ones_length.
+  rewrite of_bits_xorl; [reflexivity|].
+  now rewrite run_length, zeros_length, ones_length.
+Qed.
+
+Theorem crc16_x25_spec (bs : bytes) : crc16_x25 bs = crc_spec_x25 bs.
+Proof. exact (crc_run_spec (tl g_x25) bs). Qed.
+
+Theorem crc32c_spec (bs : bytes) : crc32c bs = crc_spec_32c bs.
+Proof. exact (crc_run_spec (tl g_32c) bs). Qed.
+
+(** The statement as requested (the well-formedness premise is not needed). *)
+Corollary crc16_x25_spec_wf (bs : bytes) : wf_bytes bs -> crc16_x25 bs = crc_spec_x25 bs.
+Proof. intros _. apply crc16_x25_spec. Qed.
+Corollary crc32c_spec_wf (bs : bytes) : wf_bytes bs -> crc32c bs = crc_spec_32c bs.
+Proof. intros _. apply crc32c_spec. Qed.
+
+(** * Burst theorem for the two concrete CRCs, on the executable model *)
+
+Lemma g_x25_ok : hd false g_x25 = true /\ last g_x25 false = true /\ length g_x25 = 17%nat.
+Proof. vm_compute. auto. Qed.
+Lemma g_32c_ok : hd false g_32c = true /\ last g_32c false = true /\ length g_32c = 33%nat.
+Proof. vm_compute. auto. Qed.
+
+(** For all octet strings [m], [m'] of equal length whose bitwise difference
+    (bits in CRC order, LSB first per octet) is a non-zero pattern confined to at
+    most 16 (resp. 32) consecutive bits, the CRCs differ. *)
+Theorem crc16_x25_burst (m m' : bytes) : burst_apart 16 m m' -> crc16_x25 m <> crc16_x25 m'.
+Proof.
+  intros H. rewrite !crc16_x25_spec.
+  destruct g_x25_ok as (Hh & Hl & Hn).
+  apply crc_spec_burst; auto. now rewrite Hn.
+Qed.
+
+Theorem crc32c_burst (m m' : bytes) : burst_apart 32 m m' -> crc32c m <> crc32c m'.
+Proof.
+  intros H. rewrite !crc32c_spec.
+  destruct g_32c_ok as (Hh & Hl & Hn).
+  apply crc_spec_burst; auto. now rewrite Hn.
+Qed.
+
+(** Range of the results (so that [be 2] / [be 4] lose nothing). *)
+Theorem crc16_x25_bound bs : (crc16_x25 bs < 2 ^ 16)%N.
+Proof.
+  rewrite crc16_x25_spec. unfold crc_spec_x25, crc_spec.
+  pose proof (of_bits_bound (crc_spec_bits g_x25 (bits_of_bytes bs))) as H.
+  rewrite crc_spec_bits_length in H. exact H.
+Qed.
+
+Theorem crc32c_bound bs : (crc32c bs < 2 ^ 32)%N.
+Proof.
+  rewrite crc32c_spec. unfold crc_spec_32c, crc_spec.
+  pose proof (of_bits_bound (crc_spec_bits g_32c (bits_of_bytes bs))) as H.
+  rewrite crc_spec_bits_length in H. exact H.
+Qed.
